@@ -37,7 +37,7 @@ def op_str(op):
     k = op[0]
     ints = lambda l: ','.join(str(x) for x in l) if l else '-'
     if k == 'push': return f'push {op[1]} {op[2]:x} {gen.show(op[3])}'
-    if k in ('probe', 'read', 'clear', 'heap', 'serde'): return f'{k} {op[1]}'
+    if k in ('probe', 'probeo', 'read', 'clear', 'heap', 'serde'): return f'{k} {op[1]}'
     if k == 'merge': return f'merge {op[1]} {ints(op[2])}'
     if k in ('clone', 'clonefrom'): return f'{k} {op[1]} {op[2]}'
     if k == 'pushitem': return f'pushitem {op[1]} {op[2]} {op[3]} {1 if op[4] else 0}'
@@ -75,7 +75,7 @@ def uses_ieee(e):
 # ------------------------------------------------------------------ reference semantics
 class RefState:
     """what the property text says a region is: per slot, the values pushed since the last clear"""
-    def __init__(self): self.log = [[], [], []]
+    def __init__(self): self.log = [[], [], [], []]
 
 def ref_oracle(e, ops, obs, clauses=()):
     """Walk a history and its observations; return None or a failure description.
@@ -90,11 +90,11 @@ def ref_oracle(e, ops, obs, clauses=()):
         if k == 'push':
             if len(g) != 1 or not g[0].startswith('i='): return f'op {t} ({op_str(op)}): push did not return an index: {g}'
             ref.log[op[1]].append(op[3])
-        elif k in ('probe', 'read'):
+        elif k in ('probe', 'probeo', 'read'):
             log = ref.log[op[1]]
             if len(g) != len(log): return f'op {t}: {len(g)} reads for {len(log)} issued indices'
             for j, (o, v) in enumerate(zip(g, log)):
-                want = expected_probe(e, v) if k == 'probe' else v
+                want = v if k == 'read' else expected_probe(e, v)
                 if not o.startswith('v='): return f'op {t}: reading index #{j} gave {o}, pushed {gen.show(v)}'
                 got = gen.parse(o[2:])
                 if not wire_equiv(got, want, ieee):
@@ -204,7 +204,7 @@ class HistGen:
 def note_case(res, name, ops):
     s = name + ';' + ';'.join(op_str(o) for o in ops)
     npush = sum(1 for o in ops if o[0] in ('push', 'pushitem'))
-    if npush >= 2 and any(o[0] in ('probe', 'read') for o in ops):
+    if npush >= 2 and any(o[0] in ('probe', 'probeo', 'read') for o in ops):
         res.nontrivial.add(s)
     for o in ops:
         res.tag(o[0])
@@ -234,4 +234,434 @@ def c01(ctx):
     run_regions(ctx, res, cases, lambda e, ops, obs: ref_oracle(e, ops, obs), 'values')
     return res
 
-PROPS = {'C01': c01}
+
+def gen_ops(ctx, hg, n, slot=0, p_clear=0.0, p_probe=0.0):
+    ops = []
+    for _ in range(n):
+        r = ctx.rng.random()
+        if r < p_clear and ops: ops.append(('clear', slot))
+        elif r < p_clear + p_probe and ops: ops.append(('probe', slot))
+        else: ops.append(hg.push(slot))
+    return ops
+
+def small_domain(ctx, e, n=3):
+    vg = gen.ValueGen(random.Random(f'dom:{catalogue.rust_type(e)}:{ctx.seed}'))
+    sh = shape(e); out = []
+    for _ in range(200):
+        v = vg.gen(sh)
+        if v not in out: out.append(v)
+        if len(out) == n: break
+    return out
+
+# ------------------------------------------------------------------ C02
+def c02(ctx):
+    res = Result()
+    res.rule = ('per entry: (a) bounded-exhaustive: every push sequence up to length L over a 3-value domain, all issued '
+                'indices re-read after every step; (b) random long histories of push (all forms) / reserve_items / '
+                'reserve_regions crossing reallocation, stride->spill and u32->u64 switches, re-read after every step; '
+                'non-trivial = distinct history with >= 2 pushes')
+    L = 3 if not ctx.thorough else 5
+    cases = []
+    import itertools
+    for name, e in ENTRIES:
+        dom = small_domain(ctx, e)
+        for l in range(1, L + 1):
+            for seq in itertools.product(range(len(dom)), repeat=l):
+                ops = []
+                for x in seq:
+                    ops.append(('push', 0, 0, dom[x])); ops.append(('probe', 0))
+                cases.append((name, ops)); note_case(res, name, ops)
+        nrand = 6 if not ctx.thorough else 60
+        for _ in range(nrand):
+            hg = HistGen(ctx, name, e); ops = []
+            c = hg.caps
+            # a source region for reserve_regions
+            for _ in range(ctx.rng.choice([0, 2, 5])): ops.append(hg.push(1))
+            for _ in range(ctx.rng.choice([4, 10, 25] if not ctx.thorough else [10, 40, 150])):
+                r = ctx.rng.random()
+                if r < 0.1 and c['reserve_items'] and catalogue.ref_ok(e): ops.append(('resitems', 0, [hg.value() for _ in range(ctx.rng.randrange(4))]))
+                elif r < 0.2: ops.append(('resregs', 0, [1]))
+                else: ops.append(hg.push(0))
+                ops.append(('probe', 0))
+            cases.append((name, ops)); note_case(res, name, ops)
+    res.exhaustive = True
+    res.extra['exhaustive_part'] = f'all push sequences of length <= {L} over 3 values per entry'
+    run_regions(ctx, res, cases, lambda e, ops, obs: ref_oracle(e, ops, obs), 'values')
+    return res
+
+# ------------------------------------------------------------------ C08
+def paired_clause(a, b):
+    """a push marked 'twin' repeats, on slot b, the push just made on slot a: same index expected"""
+    def clause(t, op, g, ref, sc):
+        key = ('pair', a, b)
+        if op[0] in ('push', 'pushitem') and op[1] == b and op[-1] == 'twin' and key in sc:
+            t0, g0 = sc.pop(key)
+            if t0 == t - 1 and g0 != g:
+                return f'ops {t0}/{t}: the same push returned {g0} on slot {a} but {g} on the twin slot {b}'
+        if op[0] in ('push', 'pushitem') and op[1] == a: sc[key] = (t, g)
+        return None
+    return clause
+
+def c08(ctx):
+    res = Result()
+    res.rule = ('per entry: history h1, clear, then history h2 applied in lock step to the cleared region and to a '
+                'default twin; returned indices compared pairwise, all reads compared; repeated clear/refill cycles; '
+                'non-trivial = distinct history with >= 2 pushes')
+    cases = []
+    n = 25 if not ctx.thorough else 300
+    for name, e in ENTRIES:
+        for _ in range(n):
+            hg = HistGen(ctx, name, e)
+            ops = gen_ops(ctx, hg, ctx.rng.choice([1, 3, 6, 12]), 0)
+            for cyc in range(ctx.rng.choice([1, 1, 2, 3])):
+                ops.append(('clear', 0))
+                if cyc > 0: ops.append(('clear', 1))
+                for _ in range(ctx.rng.choice([1, 2, 4, 8])):
+                    p = hg.push(0); ops.append(p); ops.append(('push', 1, p[2], p[3], 'twin'))
+                ops.append(('probe', 0)); ops.append(('probe', 1))
+            cases.append((name, ops)); note_case(res, name, ops)
+    run_regions(ctx, res, cases, lambda e, ops, obs: ref_oracle(e, ops, obs, [paired_clause(0, 1)]), 'full')
+    return res
+
+# ------------------------------------------------------------------ C09
+def c09(ctx):
+    res = Result()
+    res.rule = ('per Clone-able entry: history, then clone or clone_from into a destination pre-filled by an unrelated '
+                'history (longer / shorter / more or fewer columns), reads compared; identical continuation pushes on '
+                'both copies must return identical indices; then diverging histories on both and re-reads')
+    cases = []
+    n = 25 if not ctx.thorough else 300
+    for name, e in ENTRIES:
+        for _ in range(n):
+            hg = HistGen(ctx, name, e)
+            ops = gen_ops(ctx, hg, ctx.rng.choice([0, 1, 3, 6, 12]), 0, p_clear=0.05)
+            if ctx.rng.random() < 0.5:
+                ops.append(('clone', 1, 0))
+            else:
+                ops += gen_ops(ctx, hg, ctx.rng.choice([0, 1, 4, 15]), 1, p_clear=0.05)
+                ops.append(('clonefrom', 1, 0))
+            ops += [('probe', 1), ('probe', 0)]
+            for _ in range(ctx.rng.choice([0, 1, 3])):
+                p = hg.push(0); ops.append(p); ops.append(('push', 1, p[2], p[3], 'twin'))
+            # diverge
+            ops += gen_ops(ctx, hg, ctx.rng.choice([1, 3]), 0, p_clear=0.15)
+            ops += [('probe', 1), ('probe', 0)]
+            ops += gen_ops(ctx, hg, ctx.rng.choice([1, 3]), 1, p_clear=0.15)
+            ops += [('probe', 0), ('probe', 1)]
+            cases.append((name, ops)); note_case(res, name, ops)
+    res.assumptions.append('independence of the two copies in the implementation rests on Rust ownership (no unsafe/Rc/interior '
+                           'mutability in any Clone impl); the model is a value model and cannot exhibit aliasing')
+    run_regions(ctx, res, cases, lambda e, ops, obs: ref_oracle(e, ops, obs, [paired_clause(0, 1)]), 'full')
+    return res
+
+# ------------------------------------------------------------------ C10
+def c10(ctx):
+    res = Result()
+    res.rule = ('per entry: (a) reserve_items / reserve_regions with arbitrary announced contents interleaved with '
+                'pushes, in lock step with a twin that never reserves (indices and reads compared); (b) merge_regions '
+                'over 0..3 source regions with arbitrary histories (incl. the target\'s own ancestor), then pushes in '
+                'lock step with a default twin')
+    cases = []
+    n = 15 if not ctx.thorough else 200
+    for name, e in ENTRIES:
+        c = caps(e)
+        for _ in range(n):
+            hg = HistGen(ctx, name, e); ops = []
+            ops += gen_ops(ctx, hg, ctx.rng.choice([0, 2, 6]), 2)
+            for _ in range(ctx.rng.choice([2, 5, 10])):
+                r = ctx.rng.random()
+                if r < 0.2 and c['reserve_items'] and catalogue.ref_ok(e):
+                    ops.append(('resitems', 0, [hg.value() for _ in range(ctx.rng.randrange(5))]))
+                elif r < 0.4: ops.append(('resregs', 0, ctx.rng.choice([[2], [2, 2], []])))
+                else:
+                    p = hg.push(0); ops.append(p); ops.append(('push', 1, p[2], p[3], 'twin'))
+                if ctx.rng.random() < 0.3: ops += [('probe', 0)]
+            ops += [('probe', 0), ('probe', 1)]
+            cases.append((name, ops)); note_case(res, name, ops)
+        for _ in range(n):
+            hg = HistGen(ctx, name, e); ops = []
+            for k in (1, 2, 0):
+                ops += gen_ops(ctx, hg, ctx.rng.choice([0, 1, 4, 9]), k, p_clear=0.05)
+            srcs = ctx.rng.choice([[], [1], [1, 2], [2, 1, 1], [0, 1], [0]])
+            ops.append(('merge', 0, srcs))
+            ops.append(('clear', 3))
+            for _ in range(ctx.rng.choice([1, 3, 7])):
+                p = hg.push(0); ops.append(p); ops.append(('push', 3, p[2], p[3], 'twin'))
+            ops += [('probe', 0), ('probe', 3), ('probe', 1)]
+            cases.append((name, ops)); note_case(res, name, ops)
+    run_regions(ctx, res, cases, lambda e, ops, obs: ref_oracle(e, ops, obs, [paired_clause(0, 1), paired_clause(0, 3)]), 'full')
+    return res
+
+# ------------------------------------------------------------------ C11
+def heap_used(g):
+    return sum(p[0] for p in gen.parse(g[0][2:]))
+
+def c11(ctx):
+    res = Result()
+    res.rule = ('entries whose top level is CollapseSequence: push sequences with many repeats (runs, alternations, '
+                'equal after clear / merge / clone / serde, NaN and +-0 patterns); a push equal (PartialEq) to the '
+                'previous push on that region since its last reset must return the same index and leave heap_size '
+                'used bytes unchanged; every index reads an item equal to what was pushed. Entries with '
+                'CollapseSequence nested deeper run under the read oracle.')
+    cases = []
+    n = 40 if not ctx.thorough else 500
+    tops = pick_entries(lambda nm, e: e[0] == 'col')
+    inner = pick_entries(lambda nm, e: e[0] != 'col' and contains(e, 'col'))
+    def clause_for(e):
+        sh = shape(e)
+        def clause(t, op, g, ref, sc):
+            k = op[0]
+            if k == 'heap':
+                sc[('h', op[1])] = heap_used(g); return None
+            if k in ('clear', 'merge'): sc.pop(('prev', op[1]), None)
+            if k in ('clone', 'clonefrom'):
+                if ('prev', op[2]) in sc: sc[('prev', op[1])] = sc[('prev', op[2])]
+                else: sc.pop(('prev', op[1]), None)
+            if k == 'push':
+                prev = sc.get(('prev', op[1]))
+                if prev is not None and gen.values_equiv(sh, op[3], prev[0], True) and not (sh == ('n', 'f64') and (gen.f64_is_nan(op[3]) or gen.f64_is_nan(prev[0]))):
+                    if g != prev[1]: return f'op {t}: repeated item got {g}, the previous equal item has {prev[1]}'
+                    sc[('chk', op[1])] = sc.get(('h', op[1]))
+                else:
+                    sc[('prev', op[1])] = (op[3], g)
+                    sc.pop(('chk', op[1]), None)
+            return None
+        return clause
+    def heap_clause(t, op, g, ref, sc):
+        # heap ops are emitted around pushes: [heap, push, heap]; a collapsed push stores nothing
+        if op[0] == 'heap' and sc.get(('chk', op[1])) is not None:
+            before = sc.pop(('chk', op[1]))
+            if heap_used(g) != before: return f'op {t}: a collapsed push changed the stored bytes {before} -> {heap_used(g)}'
+        return None
+    for name, e in tops:
+        for _ in range(n):
+            hg = HistGen(ctx, name, e); ops = []
+            for _ in range(ctx.rng.choice([3, 6, 12, 20])):
+                r = ctx.rng.random()
+                if r < 0.07: ops.append(('clear', 0))
+                elif r < 0.12: ops += [('clone', 1, 0), ('push', 1, 0, hg.recent[-1] if hg.recent else hg.value()), ('probe', 1)]
+                elif r < 0.17: ops += [('merge', 2, [0]), ('push', 2, 0, hg.recent[-1] if hg.recent else hg.value()), ('probe', 2)]
+                elif r < 0.21: ops.append(('serde', 0))
+                else:
+                    p = ('push', 0, ctx.rng.randrange(hg.nforms), hg.value(repeat=0.6))
+                    ops += [('heap', 0), p, ('heap', 0)]
+            ops.append(('probe', 0))
+            cases.append((name, ops)); note_case(res, name, ops)
+    for name, e in inner:
+        for _ in range(n // 2):
+            hg = HistGen(ctx, name, e)
+            ops = gen_ops(ctx, hg, ctx.rng.choice([3, 6, 12]), 0, p_clear=0.07, p_probe=0.1) + [('probe', 0)]
+            cases.append((name, ops)); note_case(res, name, ops)
+    def oracle(e, ops, obs):
+        if e[0] == 'col': return ref_oracle(e, ops, obs, [heap_clause, clause_for(e)])
+        return ref_oracle(e, ops, obs)
+    run_regions(ctx, res, cases, oracle, 'full')
+    return res
+
+# ------------------------------------------------------------------ C12
+def dense_clause(t, op, g, ref, sc):
+    k = op[0]
+    if k in ('clear', 'merge'): sc[op[1]] = 0
+    if k in ('clone', 'clonefrom'): sc[op[1]] = sc.get(op[2], 0)
+    if k in ('push', 'pushitem'):
+        want = sc.get(op[1], 0)
+        if g != [f'i={want:x}']: return f'op {t}: push number {want} since the last reset returned {g}'
+        sc[op[1]] = want + 1
+    return None
+
+def c12(ctx):
+    res = Result()
+    res.rule = ('entries whose top level is ConsecutiveIndexPairs or ColumnsRegion: push sequences incl. empty items, '
+                'ragged rows 0..9 wide in any order, across clear / merge / clone; the k-th push since the last reset '
+                'must return k and index k must read the k-th item with exactly its own length and cells')
+    cases = []
+    n = 40 if not ctx.thorough else 500
+    for name, e in pick_entries(lambda nm, e: e[0] in ('con', 'cols')):
+        for _ in range(n):
+            hg = HistGen(ctx, name, e); ops = []
+            for _ in range(ctx.rng.choice([2, 5, 10, 20])):
+                r = ctx.rng.random()
+                if r < 0.06: ops.append(('clear', 0))
+                elif r < 0.1: ops += [('merge', 1, [0]), hg.push(1), hg.push(1), ('probe', 1)]
+                elif r < 0.14: ops += [('clone', 2, 0), hg.push(2), ('probe', 2)]
+                elif r < 0.2 and any(o[0] == 'push' and o[1] == 0 for o in ops): ops.append(('probe', 0))
+                else: ops.append(hg.push(0))
+            ops.append(('probe', 0))
+            cases.append((name, ops)); note_case(res, name, ops)
+    run_regions(ctx, res, cases, lambda e, ops, obs: ref_oracle(e, ops, obs, [dense_clause]), 'full')
+    return res
+
+# ------------------------------------------------------------------ C13
+def c13(ctx):
+    res = Result()
+    res.rule = ('entries containing SliceRegion or ColumnsRegion: regions holding >= 3 adjacent items; for every item, '
+                'in both representations (region-backed, and borrowed from its owned Vec), get(i) for all i in '
+                '0..len+1, len, is_empty, iteration; get(i) must be the i-th element for i < len and panic for '
+                'i >= len (never a neighbour\'s element)')
+    cases = []
+    n = 40 if not ctx.thorough else 500
+    for name, e in pick_entries(lambda nm, e: contains(e, 'sl') or contains(e, 'cols')):
+        for _ in range(n):
+            hg = HistGen(ctx, name, e)
+            ops = gen_ops(ctx, hg, ctx.rng.choice([3, 4, 6, 10]), 0)
+            ops += [('probe', 0), ('probeo', 0)]
+            cases.append((name, ops)); note_case(res, name, ops)
+    res.exhaustive = True
+    res.extra['exhaustive_part'] = 'all positions 0..len+1 of every item of every generated region, both representations'
+    run_regions(ctx, res, cases, lambda e, ops, obs: ref_oracle(e, ops, obs), 'values')
+    return res
+
+# ------------------------------------------------------------------ C14
+def c14(ctx):
+    res = Result()
+    res.rule = ('per entry: items copied between regions as region-backed read items and as borrows of their owned form '
+                '(Push<ReadItem>), clone_onto into targets with arbitrary prior contents (empty, shorter, longer, other '
+                'variant, nested), into_owned (through reborrow) and borrow_as(&into_owned(x)) probed through every accessor')
+    cases = []
+    n = 30 if not ctx.thorough else 400
+    for name, e in ENTRIES:
+        for _ in range(n):
+            hg = HistGen(ctx, name, e)
+            ops = gen_ops(ctx, hg, ctx.rng.choice([1, 3, 6]), 0)
+            npush = len(ops)
+            ops += gen_ops(ctx, hg, ctx.rng.choice([0, 2]), 1)
+            for _ in range(ctx.rng.choice([1, 3, 6])):
+                r = ctx.rng.random(); j = ctx.rng.randrange(npush)
+                if r < 0.5: ops.append(('pushitem', 1, 0, j, ctx.rng.random() < 0.5))
+                else: ops.append(('cloneonto', 0, j, hg.value(repeat=0.2)))
+            ops += [('read', 0), ('probeo', 0), ('probe', 1), ('probeo', 1), ('read', 1)]
+            cases.append((name, ops)); note_case(res, name, ops)
+    run_regions(ctx, res, cases, lambda e, ops, obs: ref_oracle(e, ops, obs), 'values')
+    return res
+
+# ------------------------------------------------------------------ C04
+def src_inventory_c04():
+    """program-text part: every `unsafe` in src/ and every `impl Push<_> for StringRegion`"""
+    import re
+    fails = []; found = {'unsafe': [], 'push_impls': []}
+    for dp, _, fs in os.walk(os.path.join(lib.REPO, 'src')):
+        for f in fs:
+            if not f.endswith('.rs'): continue
+            p = os.path.join(dp, f); txt = open(p).read()
+            for m in re.finditer(r'\bunsafe\b', txt):
+                line = txt.count('\n', 0, m.start()) + 1
+                ctxt = txt[m.start():m.start() + 120].split('\n')[0:2]
+                found['unsafe'].append(f'{os.path.relpath(p, lib.REPO)}:{line}: {" ".join(x.strip() for x in ctxt)}')
+            for m in re.finditer(r'impl\s*<[^{]*?>\s*Push<([^{]*?)>\s*for\s*StringRegion', txt, flags=re.S):
+                found['push_impls'].append(re.sub(r'\s+', ' ', m.group(1)))
+    allowed_unsafe = lambda s: s.startswith('src/impls/string.rs') and 'from_utf8_unchecked' in s
+    for u in found['unsafe']:
+        if not allowed_unsafe(u): fails.append(f'unexpected unsafe: {u}')
+    string_types = {'String', '&String', '&str', '&&str'}
+    for t in found['push_impls']:
+        if t not in string_types: fails.append(f'StringRegion accepts a non-string input type: Push<{t}>')
+    return found, fails
+
+def c04(ctx):
+    res = Result()
+    res.rule = ('string-bearing entries: strings of 1-4 byte scalars, combining sequences, empty and adjacent multi-byte '
+                'strings; histories of push (all string forms) / clear / clone / clone_from / merge / serde / item '
+                'copies; every &str handed out is compared byte-for-byte with the pushed string (the harness obtains '
+                'it as &str, bytes are checked to be valid UTF-8 by Python decoding); plus the source inventory of '
+                'unsafe blocks and of impl Push<_> for StringRegion')
+    cases = []
+    n = 30 if not ctx.thorough else 400
+    for name, e in pick_entries(lambda nm, e: contains(e, 'str') or contains(e, 'strof')):
+        for _ in range(n):
+            hg = HistGen(ctx, name, e); ops = []
+            for _ in range(ctx.rng.choice([3, 6, 12])):
+                r = ctx.rng.random()
+                if r < 0.06: ops.append(('clear', 0))
+                elif r < 0.12: ops += [('clone', 1, 0), ('probe', 1)]
+                elif r < 0.17: ops += [('clonefrom', 2, 0), ('probe', 2)]
+                elif r < 0.22: ops += [('merge', 1, [0, 2]), hg.push(1), ('probe', 1)]
+                elif r < 0.28: ops += [('serde', 0), ('probe', 0)]
+                elif r < 0.33 and any(o[0] == 'push' and o[1] == 0 for o in ops) and not any(o[0] == 'clear' for o in ops):
+                    ops += [('clear', 3), ('pushitem', 3, 0, 0, ctx.rng.random() < 0.5), ('probe', 3)]
+                else: ops.append(hg.push(0))
+            ops.append(('probe', 0))
+            cases.append((name, ops)); note_case(res, name, ops)
+    def utf8_clause(t, op, g, ref, sc):
+        return None
+    run_regions(ctx, res, cases, lambda e, ops, obs: ref_oracle(e, ops, obs), 'values')
+    found, fails = src_inventory_c04()
+    res.extra['source_inventory'] = found
+    for f in fails:
+        res.failures.append({'kind': 'source-inventory', 'what': f, 'known': None,
+                             'note': 'the unchecked UTF-8 conversion is reachable through a write path that does not guarantee UTF-8'})
+    return res
+
+# ------------------------------------------------------------------ C16
+def c16(ctx):
+    res = Result()
+    res.rule = ('per serde-enabled entry: history, clone into a twin, serialise+deserialise (serde_json) the original '
+                'in place, reads compared, then the same continuation on both copies (repeat the last item, continue '
+                'the stride, cross u32): indices and reads must agree')
+    cases = []
+    n = 30 if not ctx.thorough else 400
+    for name, e in ENTRIES:
+        for _ in range(n):
+            hg = HistGen(ctx, name, e)
+            ops = gen_ops(ctx, hg, ctx.rng.choice([0, 1, 3, 6, 12]), 0, p_clear=0.05)
+            ops += [('clone', 1, 0), ('serde', 0), ('probe', 0), ('probe', 1)]
+            for _ in range(ctx.rng.choice([1, 3, 6])):
+                p = ('push', 0, ctx.rng.randrange(hg.nforms), hg.value(repeat=0.6)); ops.append(p); ops.append(('push', 1, p[2], p[3], 'twin'))
+                if ctx.rng.random() < 0.15: ops.append(('serde', 0))
+            ops += [('probe', 0), ('probe', 1)]
+            cases.append((name, ops)); note_case(res, name, ops)
+    res.assumptions.append('serde, serde_json and the derive macros are trusted, not modelled; the model treats the round trip as the identity and the correspondence shows the implementation does too')
+    run_regions(ctx, res, cases, lambda e, ops, obs: ref_oracle(e, ops, obs, [paired_clause(0, 1)]), 'full')
+    return res
+
+# ------------------------------------------------------------------ C20
+def c20(ctx):
+    res = Result()
+    nf = sum(len(forms(e)) for _, e in ENTRIES)
+    res.rule = (f'per entry: every typed input form the composition offers ({nf} generated forms over the catalogue: '
+                'owned, &, &&, slice, Vec of alternative child forms, PushIter, borrowed read item, region-backed read '
+                'item) pushed in lock step with a twin fed the canonical form: equal indices, equal heap_size used '
+                'bytes, equal reads; histories mix forms arbitrarily')
+    cases = []
+    n = 30 if not ctx.thorough else 300
+    for name, e in ENTRIES:
+        nfm = len(forms(e))
+        for it in range(n):
+            hg = HistGen(ctx, name, e); ops = []
+            m = ctx.rng.choice([2, 4, 8, 14])
+            for j in range(m):
+                f = (it + j) % nfm if ctx.rng.random() < 0.7 else ctx.rng.randrange(nfm)
+                v = hg.value(repeat=0.4)
+                ops += [('push', 0, f, v), ('push', 1, 0, v, 'twin')]
+                if ctx.rng.random() < 0.2:
+                    ops += [('heap', 0), ('heap', 1)]
+            # region-backed read item as the input form
+            if ctx.rng.random() < 0.5:
+                j = ctx.rng.randrange(m)
+                ops += [('pushitem', 2, 0, j, False), ('pushitem', 3, 1, j, True, 'twin')]
+                ops += [('probe', 2), ('probe', 3)]
+            ops += [('heap', 0), ('heap', 1), ('probe', 0), ('probe', 1)]
+            cases.append((name, ops)); note_case(res, name, ops)
+    def heap_pair(t, op, g, ref, sc):
+        if op[0] == 'heap':
+            if op[1] == 0: sc['h0'] = heap_used(g)
+            elif op[1] == 1 and 'h0' in sc:
+                h0 = sc.pop('h0')
+                if heap_used(g) != h0: return f'op {t}: mixed-form region stores {h0} bytes, canonical-form twin {heap_used(g)}'
+        return None
+    def inventory():
+        import re
+        found = []
+        for dp, _, fs in os.walk(os.path.join(lib.REPO, 'src')):
+            for f in fs:
+                if f.endswith('.rs'):
+                    txt = open(os.path.join(dp, f)).read()
+                    body = txt.split('#[cfg(test)]')[0]
+                    for m in re.finditer(r'impl\s*<[^{;]*?>\s*Push<([^{;]*?)>\s*for\s*([A-Za-z]+)', body, flags=re.S):
+                        found.append(f'{m.group(2)}: Push<{re.sub(chr(92) + "s+", " ", m.group(1))}>')
+        return sorted(found)
+    res.extra['push_impls_in_source'] = inventory()
+    run_regions(ctx, res, cases, lambda e, ops, obs: ref_oracle(e, ops, obs, [paired_clause(0, 1), paired_clause(2, 3), heap_pair]), 'full')
+    return res
+
+PROPS = {'C01': c01, 'C02': c02, 'C04': c04, 'C08': c08, 'C09': c09, 'C10': c10, 'C11': c11, 'C12': c12,
+         'C13': c13, 'C14': c14, 'C16': c16, 'C20': c20}
